@@ -102,7 +102,11 @@ func runNestedNow(n *Nested) {
 				r.Obs.Line = w2.lines[r.From]
 			}
 		}()
-		finish(ev, in.Fin, string(in.Msg))
+		if in.EntryUsed() == 6 {
+			nestedRuns[idx].Obs.Recovered = finishRecovering(ev, in.Fin, string(in.Msg))
+		} else {
+			finish(ev, in.Fin, string(in.Msg))
+		}
 		nestedRuns[idx].Done = true
 	}
 	if n.Late && !n.After {
